@@ -51,11 +51,7 @@ Theorem c39_certificate_identity : forall has_local cur new i c n,
   nth_error (certs cur) i = Some c -> nth_error (certs new) i = Some n ->
   (c <> n -> set_configuration false has_local cur new = (cur, Err E_modification)) /\
   (c_x509 c <> c_x509 n -> set_configuration false has_local cur new = (cur, Err E_modification)).
-Proof.
-  intros has_local cur new i c n Hc Hn. split.
-  - exact (other_certificate_rejected has_local cur new i c n Hc Hn).
-  - exact (same_key_other_x509_rejected has_local cur new i c n Hc Hn).
-Qed.
+Proof. exact certificate_identity. Qed.
 Print Assumptions c39_certificate_identity.
 
 (* and naming the stored certificates again (a re-import of the same key and
